@@ -371,6 +371,98 @@ def random_grammar(rng, size=None):
     return ag
 
 
+def prec_pseudo_grammar(rng):
+    """/repo 4ff022d: abstract grammars whose precedence PSEUDO-TOKENS (UMINUS style) occur in no right-hand side: they are
+    declared by a %left/%right/%nonassoc level alone (the %prec occurrence introduces the token) or by a level and %token, and
+    are named by %prec of productions of REACHABLE rules (not to be reported unused), of UNREACHABLE rules only (to be
+    reported, like the rule itself) or by no production at all (to be reported).  Returns (ag, info)."""
+    kind = rng.choice(["O", "O", "N", "G", "E"])
+    ops = rng.sample(["-", "+", "*", "!", "~", "<", "=="], rng.randint(1, 3))
+    atoms = rng.sample(["n", "id", "(", ")", "x"], rng.randint(1, 3))
+    declared_real = rng.sample(["NUM", "IDENT", "T_STR"], rng.randint(0, 2))
+    pseudo_names = rng.sample(["UMINUS", "UPLUS", "PFX", "P_hi", "NEG", "LOWEST", "Pz9"], rng.randint(1, 4))
+    # (a %prec token without a precedence level is an error, NoPrecForToken: every pseudo-token has a level)
+    how = {n: rng.choice(["level", "level", "both"]) for n in pseudo_names}
+    where = {n: rng.choice(["reach", "reach", "unreach", "nowhere", "both"]) for n in pseudo_names}
+    where[pseudo_names[0]] = "reach"                      # every grammar has the textbook situation
+    declared = declared_real + [n for n in pseudo_names if how[n] in ("token", "both")]
+    rng.shuffle(declared)
+    levels = []
+    pool = ops[:] + [n for n in pseudo_names if how[n] in ("level", "both")]
+    rng.shuffle(pool)
+    while pool:
+        k = rng.randint(1, min(2, len(pool)))
+        levels.append((rng.choice(["left", "right", "nonassoc"]), [pool.pop() for _ in range(k)]))
+    reach_rules = ["E"] + rng.sample(["T", "F", "Arg"], rng.randint(0, 2))
+    unreach_rules = rng.sample(["Dead", "U1", "Old"], rng.randint(0, 2))
+    if any(w in ("unreach", "both") for w in where.values()) and not unreach_rules:
+        unreach_rules = ["Dead"]
+    real = ops + atoms + declared_real
+
+    def prod(rules_ok, prec):
+        syms = []
+        for _ in range(rng.choice([1, 1, 2, 2, 3])):
+            syms.append(("R", rng.choice(rules_ok)) if rng.random() < 0.45 else ("T", rng.choice(real)))
+        return {"syms": syms, "prec": prec, "action": rng.choice(ACTIONS) if kind == "G" or rng.random() < 0.3 else None,
+                "empty_kw": False}
+    rules = []
+    for rn in reach_rules:
+        prods = [prod(reach_rules, None) for _ in range(rng.randint(1, 2))]
+        rules.append({"name": rn, "actiont": rng.choice(TYPES) if kind == "G" else None, "prods": prods})
+    # E refers to every other reachable rule so that they ARE reachable
+    for rn in reach_rules[1:]:
+        rules[0]["prods"].append({"syms": [("T", rng.choice(ops)), ("R", rn)], "prec": None, "action": None, "empty_kw": False})
+    rules[0]["prods"].append({"syms": [("T", atoms[0])], "prec": None, "action": None, "empty_kw": False})
+    for rn in unreach_rules:
+        prods = [prod(reach_rules + unreach_rules, None) for _ in range(rng.randint(1, 2))]
+        rules.append({"name": rn, "actiont": rng.choice(TYPES) if kind == "G" else None, "prods": prods})
+    for n in pseudo_names:
+        if where[n] in ("reach", "both"):
+            r = rules[rng.randrange(len(reach_rules))]
+            r["prods"].insert(rng.randint(0, len(r["prods"])), prod(reach_rules, n) if rng.random() < 0.6 else
+                              {"syms": [("T", ops[0]), ("R", "E")], "prec": n, "action": None, "empty_kw": False})
+        if where[n] in ("unreach", "both"):
+            r = rules[len(reach_rules) + rng.randrange(len(unreach_rules))]
+            r["prods"].insert(rng.randint(0, len(r["prods"])), prod(reach_rules + unreach_rules, n))
+    # the start rule is E: first rule of the text or named by %start (then the rule blocks may come in any order)
+    start = None
+    if rng.random() < 0.5:
+        start = "E"
+        rng.shuffle(rules)
+    ag = {"kind": kind, "declared": declared, "precs": levels, "start": start,
+          "expect": rng.choice([0, 1, 3]) if rng.random() < 0.3 else None, "expectrr": rng.choice([0, 2]) if rng.random() < 0.2 else None,
+          "actiontype": rng.choice(TYPES) if kind in "ON" and rng.random() < 0.4 else None, "parse_param": None, "parse_generics": None,
+          "implicit_tokens": None, "avoid_insert": None, "epp": [], "programs": None, "rules": rules}
+    return ag, {"pseudo": pseudo_names, "how": how, "where": where, "reach": reach_rules, "unreach": unreach_rules}
+
+
+def expected_warnings(exp, prec_used_fixed=True):
+    """GrammarAST::warnings of the AST a printed text denotes, from first principles: rules not reachable from the start rule
+    (in rule order), then tokens that no reachable production uses (in token order) — use = occurrence as a symbol or, since
+    /repo 4ff022d, as the %prec token of the production.  (kind, span) pairs."""
+    rules = {r["name"]: r for r in exp["rules"]}
+    start = exp["start"][0] if exp["start"] else None
+    seen_r, seen_t, todo = set(), set(), []
+    if start in rules:
+        seen_r.add(start)
+        todo = [start]
+    while todo:
+        for pidx in rules[todo.pop()]["pidxs"]:
+            p = exp["prods"][pidx]
+            if p["prec"] and prec_used_fixed:
+                seen_t.add(p["prec"])
+            for k, n, _ in p["syms"]:
+                if k == "T":
+                    seen_t.add(n)
+                elif n not in seen_r:
+                    seen_r.add(n)
+                    if n in rules:
+                        todo.append(n)
+    implicit = set(exp["implicit"] or {})
+    return [("UnusedRule", tuple(r["span"])) for r in exp["rules"] if r["name"] not in seen_r] + \
+           [("UnusedToken", tuple(exp["tokspan"][t])) for t in exp["tokens"] if t not in seen_t and t not in implicit]
+
+
 # --------------------------------------------------------------------------
 # printer
 # --------------------------------------------------------------------------
